@@ -20,7 +20,7 @@ ANCHORS = [
 ]
 OPS = ["cumsum", "np.cumsum", "add.acc", "subtract.acc", "xor.acc", "sort", "unique", "unique_counts", "diff"]
 FLOOR_TAGS = ["op:" + o for o in OPS] + ["kind:b", "kind:i", "kind:u", "kind:f", "norows", "allempty", "e-first", "e-last", "e-mid", "e-consec", "e-none",
-                                         "recv:fresh", "recv:lazyrows", "recv:lazycols+2", "diff-n>len", "v:extreme", "v:dups", "op-write-op", "ntype:uint8", "ntype:int64", "many-empty-rows"]
+                                         "recv:fresh", "recv:lazyrows", "recv:lazycols+2", "diff-n>len", "v:extreme", "v:dups", "op-write-op", "ntype:uint8", "ntype:int64", "many-empty-rows", "cumsum-dtype="]
 FLOOR_MONITORS = ["c07:compare"]
 N_RANDOM = {"quick": 36000, "thorough": 400000}
 
@@ -81,8 +81,14 @@ def run_once(case, rewrite):
     if op in ("cumsum", "np.cumsum"):
         if dt.kind not in "iu":
             return undefined("cumsum on %s is rejected by design" % dt, tags)
-        o = attempt(lambda: [np.cumsum(r) for r in rows])
-        a = attempt(lambda: ra.cumsum(axis=-1) if op == "cumsum" else np.cumsum(ra, axis=-1))
+        ad = case.get("accdtype")        # numpy's dtype= argument: the type the sums are accumulated and returned in (integer types only)
+        if ad:
+            tags.append("cumsum-dtype=")
+            o = attempt(lambda: [np.cumsum(r, dtype=ad) for r in rows])
+            a = attempt(lambda: ra.cumsum(axis=-1, dtype=np.dtype(ad)) if op == "cumsum" else np.cumsum(ra, axis=-1, dtype=ad))
+        else:
+            o = attempt(lambda: [np.cumsum(r) for r in rows])
+            a = attempt(lambda: ra.cumsum(axis=-1) if op == "cumsum" else np.cumsum(ra, axis=-1))
     elif op.endswith(".acc"):
         uf = {"add.acc": np.add, "subtract.acc": np.subtract, "xor.acc": np.bitwise_xor}[op]
         o = attempt(lambda: [uf.accumulate(r) for r in rows] + [uf.accumulate(flat[:0])][:0])
@@ -104,7 +110,8 @@ def run_once(case, rewrite):
         raise ValueError(op)
     if not o.ok:
         return undefined("numpy raises for a row: %r" % o, tags)
-    desc = "%s%s on %s rows %s [%s receiver]" % (op, "(n=%d)" % nn if op == "diff" else "", dt, short([r.tolist() for r in rows], 200), recv)
+    opdesc = "%s(dtype=%s)" % (op, case["accdtype"]) if (case.get("accdtype") and op in ("cumsum", "np.cumsum")) else op
+    desc = "%s%s on %s rows %s [%s receiver]" % (opdesc, "(n=%d)" % nn if op == "diff" else "", dt, short([r.tolist() for r in rows], 200), recv)
     CTX.tick("c07:compare", tot > 0)
     nontrivial = n >= 2 and tot >= 2
     if not a.ok:
@@ -191,6 +198,8 @@ def gen_case(rng, lens, dtype, vclass, op=None, recv="fresh"):
     c = mk_case(lens, dtype, _vals(rng, dtype, sum(lens), vclass, op), op, nn, vclass, recv, rewrite)
     if op == "diff":
         c["ntype"] = rng.choice(["int", "int", "int64", "uint8", "uint64", "int8", "0d"])
+    if op in ("cumsum", "np.cumsum") and rng.random() < 0.25:
+        c["accdtype"] = rng.choice(gen.DT_INT)
     return c
 
 
@@ -228,6 +237,14 @@ def directed():
         for op in ["sort", "unique", "unique_counts", "diff", "add.acc", "subtract.acc"]:
             yield gen_case(rng, L, dtype, "nonfinite", op)      # add/subtract.accumulate here: the F07b witness
         yield gen_case(rng, L, dtype, "extreme", "add.acc")
+    for dtype, ad in (("int64", "int8"), ("int64", "uint16"), ("int8", "int64"), ("uint8", "int8"), ("int16", "uint64"), ("uint64", "int32")):
+        for op in ("cumsum", "np.cumsum"):
+            c = gen_case(rng, [3, 0, 2, 1], dtype, "extreme", op)
+            c["accdtype"] = ad
+            yield c
+            c = mk_case([3, 0, 2, 1], dtype, [100, 100, 3, 5, 7, 120] if dtype != "int64" else [100, 100, 3, -5, 7, 120], op, 1, "small")
+            c["accdtype"] = ad
+            yield c
     for recv in c02.RECVS[1:]:
         for op in OPS:
             yield gen_case(rng, [2, 0, 3, 1], "int64", "small", op, recv)
